@@ -9,6 +9,9 @@
 //! node that never saw the hostile messages.
 //! Scenario 1: raw / mutated bytes into handle_received_packet of the same node.
 //! Scenario 2: discovery payloads (PL_CDR) of the four discovery types.
+//! Scenarios 3 / 4: the stateful reader / writer scripts of C01 / C04, survival only.
+//! Scenario 5 (security build only, see c17_gate::run_hostile): mutated protected
+//! traffic into a security-enabled MessageReceiver.
 
 use std::collections::BTreeSet;
 
@@ -48,7 +51,13 @@ pub fn property() -> Property {
            sizes; octetsToInlineQos; lengths 0/too long/too short; all flag bits; known, unknown \
            and built-in entity ids; INFO_* with odd contents; bad parameter lists); ACKNACK/NACKFRAG \
            go to the writer. scenario 1: mutated valid datagrams and raw bytes. scenario 2: \
-           discovery (PL_CDR) payload bytes. Per datagram: no panic/abort, <= 2000+64*len loop \
+           discovery (PL_CDR) payload bytes. scenarios 3 / 4: the stateful reader / writer scripts of \
+           C01 / C04, for survival only. scenario 5 (run by ./check in the security build): a \
+           MessageReceiver with real SecurityPlugins and generated protection receives protected and \
+           unprotected datagrams of a key-exchanged peer, each first in 1-3 mutated forms (bytes, \
+           submessage lengths, 32-bit fields of the secure submessages, truncation, insertion, \
+           splices); then a second correctly protecting peer must still get through to every reader. \
+           Per datagram: no panic/abort, <= 2000+64*len loop \
            iterations in the instrumented value-driven loops, <= 1 MiB + 256*len bytes of peak \
            allocation; afterwards valid traffic of a different peer is delivered and answered as on \
            a fresh node. Non-trivial = the datagram parsed and at least one submessage reached a \
@@ -97,6 +106,15 @@ pub fn property() -> Property {
         quick: 600,
         thorough: 60_000,
         max_len: 700,
+        max_threads: 0,
+      },
+      #[cfg(feature = "security")]
+      Scenario {
+        id: 5,
+        name: "security-enabled participant (build with the security feature): byte-mutated protected and unprotected datagrams into a MessageReceiver with real SecurityPlugins, then a well-behaved protecting peer",
+        quick: 3_000,
+        thorough: 300_000,
+        max_len: 500,
         max_threads: 0,
       },
     ],
@@ -1073,6 +1091,8 @@ pub fn run(scenario: u32, choices: &[u8], _strict: bool) -> Outcome {
     // state it meets. The stateful scripts of C01 / C04 are run for survival only: a panic, a
     // hang (tick budget) or an abort is caught by the engine's monitors; what the models of
     // those properties think of the outcome is not C06's business.
+    #[cfg(feature = "security")]
+    5 => return super::c17_gate::run_hostile(choices),
     3 | 4 => {
       let r = if scenario == 3 {
         super::rscript::run(super::rscript::Focus::C01, choices, _strict)
